@@ -187,7 +187,6 @@ def main(argv):
         only08src = {
             "submodule": "submodule (a) b\nend submodule b\n",
             "codimension": "program p\ninteger, codimension[*] :: a\nend program p\n",
-            "coarray_decl": "program p\ninteger :: a[*]\nend program p\n",
             "block": "program p\nblock\ninteger :: i\nend block\nend program p\n",
             "critical": "program p\ncritical\nx = 1\nend critical\nend program p\n",
             "do_concurrent": "program p\ndo concurrent (i = 1:3)\nx = i\nend do\nend program p\n",
